@@ -189,6 +189,162 @@ class Model:
             self._link_bases(c)
         self._mro_cache: Dict[int, List[ClassInfo]] = {}
         self._ftype_cache: Dict[Tuple[str, str], object] = {}
+        # world assumptions (see rules/world.py): names mean their definitions.  Rebindings that can be followed are
+        # followed here (last binding wins, like in Python); what cannot be followed is recorded and reported by R-WORLD.
+        self.world: List[dict] = []
+        self.followed: List[str] = []
+        self._apply_rebindings()
+        self._mro_cache.clear()
+
+    # ------------------------------------------------------------ rebindings
+    def _world(self, kind, severity, where, target_path, symbol, msg):
+        self.world.append({"kind": kind, "severity": severity, "where": where, "target_path": target_path, "symbol": symbol, "msg": msg})
+
+    @staticmethod
+    def _top_stmts(body):
+        for st in body:
+            yield st
+            if isinstance(st, (ast.If, ast.Try)):
+                subs = [x for x in ast.iter_child_nodes(st) if isinstance(x, ast.stmt)]
+                for h in getattr(st, "handlers", []):
+                    subs += h.body
+                yield from Model._top_stmts(subs)
+
+    def _unwrap_callable(self, m: Module, c: Optional[ClassInfo], v: ast.expr):
+        """value of a rebinding -> (FuncInfo, forced_static) | None.  `staticmethod(f)` / `classmethod(f)` are unwrapped."""
+        forced = None
+        if isinstance(v, ast.Call) and isinstance(v.func, ast.Name) and v.func.id in ("staticmethod", "classmethod") and len(v.args) == 1:
+            forced = v.func.id
+            v = v.args[0]
+        r = None
+        if isinstance(v, ast.Name) and c is not None and v.id in c.methods:
+            r = c.methods[v.id]
+        elif isinstance(v, (ast.Name, ast.Attribute)):
+            r = self.resolve_expr_symbol(m, v)
+        if isinstance(r, FuncInfo):
+            return r, forced
+        return None
+
+    def _bind_method(self, c: ClassInfo, name: str, f: FuncInfo, forced, where: str, how: str):
+        if f.cls is not c or forced:
+            nf = FuncInfo(f.module, c, f.node)
+            if forced == "staticmethod":
+                nf.is_static = True
+            elif forced == "classmethod":
+                nf.is_classmethod = True
+            elif f.cls is not None and f.cls is not c:
+                nf.is_static, nf.is_classmethod, nf.is_property = f.is_static, f.is_classmethod, f.is_property
+            f = nf
+        c.methods[name] = f
+        self.followed.append(f"{where}: {c.name}.{name} is {how} `{f.node.name}` ({f.module.relpath}:{f.node.lineno}); the analysis follows the last binding")
+
+    def _apply_rebindings(self):
+        # 1. a name bound by `def` / `class` and bound again later in the same namespace
+        for m in self.modules.values():
+            order: Dict[str, list] = {}
+            for st in self._top_stmts(m.tree.body):
+                if isinstance(st, (ast.FunctionDef, ast.AsyncFunctionDef, ast.ClassDef)):
+                    order.setdefault(st.name, []).append(("def", st))
+                elif isinstance(st, ast.Assign):
+                    for t in st.targets:
+                        for tt in (t.elts if isinstance(t, (ast.Tuple, ast.List)) else [t]):
+                            if isinstance(tt, ast.Name):
+                                order.setdefault(tt.id, []).append(("assign", st))
+                elif isinstance(st, (ast.AnnAssign, ast.AugAssign)) and isinstance(st.target, ast.Name) and getattr(st, "value", None) is not None:
+                    order.setdefault(st.target.id, []).append(("assign", st))
+                elif isinstance(st, (ast.Import, ast.ImportFrom)):
+                    for a in st.names:
+                        order.setdefault(a.asname or a.name.split(".")[0], []).append(("import", st))
+            for name, evs in order.items():
+                if not any(k == "def" for k, _ in evs) or evs[-1][0] == "def":
+                    continue
+                kind, st = evs[-1]
+                where = f"{m.relpath}:{st.lineno}"
+                if kind == "import":
+                    m.funcs.pop(name, None)
+                    m.classes.pop(name, None)
+                    self.followed.append(f"{where}: `{name}` is defined and then imported again; the import wins")
+                    continue
+                val = st.value if not isinstance(st, ast.AugAssign) else None
+                got = self._unwrap_callable(m, None, val) if val is not None and isinstance(st, (ast.Assign, ast.AnnAssign)) and \
+                    not (isinstance(st, ast.Assign) and isinstance(st.targets[0], (ast.Tuple, ast.List))) else None
+                if got is not None and name in m.funcs:
+                    f, _ = got
+                    if f is not m.funcs[name]:
+                        m.funcs[name] = f
+                        m.consts.pop(name, None)
+                        self.followed.append(f"{where}: `{name}` is rebound to `{f.qualname}`; the analysis follows the last binding")
+                    else:
+                        m.consts.pop(name, None)
+                else:
+                    self._world("W1", "refuse", where, m.relpath, f"{m.name.split('.', 1)[-1]}.{name}",
+                                f"`{name}` is defined by a def / class statement and rebound afterwards to `{ast.unparse(val)[:60] if val is not None else '?'}`, "
+                                f"which the analysis cannot follow: calls of `{name}` no longer run the definition that was analysed")
+            for c in m.classes.values():
+                for name in list(c.methods):
+                    if name not in c.consts:
+                        continue
+                    last_assign = max((st for st in c.node.body if isinstance(st, ast.Assign) and any(isinstance(t, ast.Name) and t.id == name for t in st.targets)),
+                                      key=lambda s: s.lineno, default=None)
+                    last_def = max((st for st in c.node.body if isinstance(st, (ast.FunctionDef, ast.AsyncFunctionDef)) and st.name == name), key=lambda s: s.lineno)
+                    if last_assign is None or last_assign.lineno < last_def.lineno:
+                        continue
+                    where = f"{m.relpath}:{last_assign.lineno}"
+                    got = self._unwrap_callable(m, c, last_assign.value)
+                    if got is not None:
+                        if got[0] is not c.methods[name]:
+                            self._bind_method(c, name, got[0], got[1], where, "rebound in the class body to")
+                        c.consts.pop(name, None)
+                    else:
+                        self._world("W1", "refuse", where, m.relpath, f"{c.name}.{name}",
+                                    f"{c.name}.{name} is defined by a def statement and rebound in the class body to `{ast.unparse(last_assign.value)[:60]}`, "
+                                    f"which the analysis cannot follow")
+        # 2. attributes of classes / modules assigned from outside (`Cls.m = f`, `setattr(Cls, 'm', f)`, `module.f = g`)
+        for m in self.modules.values():
+            top = {id(x) for st in self._top_stmts(m.tree.body) for x in ast.walk(st) if not isinstance(st, (ast.FunctionDef, ast.AsyncFunctionDef, ast.ClassDef))}
+            for n in ast.walk(m.tree):
+                tgt = val = None
+                if isinstance(n, ast.Assign) and len(n.targets) == 1 and isinstance(n.targets[0], ast.Attribute):
+                    tgt, attr, val = n.targets[0].value, n.targets[0].attr, n.value
+                elif isinstance(n, ast.AugAssign) and isinstance(n.target, ast.Attribute):
+                    tgt, attr, val = n.target.value, n.target.attr, None
+                elif isinstance(n, ast.Call) and isinstance(n.func, ast.Name) and n.func.id in ("setattr", "delattr") and len(n.args) >= 2:
+                    if not (isinstance(n.args[1], ast.Constant) and isinstance(n.args[1].value, str)):
+                        tgt, attr, val = n.args[0], None, (n.args[2] if len(n.args) > 2 else None)
+                    else:
+                        tgt, attr, val = n.args[0], n.args[1].value, (n.args[2] if len(n.args) > 2 else None)
+                if tgt is None or not isinstance(tgt, (ast.Name, ast.Attribute)):
+                    continue
+                if isinstance(tgt, ast.Name) and tgt.id in ("self", "cls"):
+                    continue
+                fn = enclosing_function(n)
+                if fn is not None and isinstance(tgt, ast.Name) and any(a.arg == tgt.id for a in fn.args.args + fn.args.kwonlyargs):
+                    continue
+                owner = self.resolve_expr_symbol(m, tgt)
+                if not isinstance(owner, (ClassInfo, Module)):
+                    continue
+                where = f"{m.relpath}:{n.lineno}"
+                opath = owner.module.relpath if isinstance(owner, ClassInfo) else owner.relpath
+                oname = owner.name if isinstance(owner, ClassInfo) else owner.name.split(".", 1)[-1]
+                if id(n) in top and attr is not None and val is not None:
+                    got = self._unwrap_callable(m, None, val)
+                    if got is not None:
+                        if isinstance(owner, ClassInfo):
+                            self._bind_method(owner, attr, got[0], got[1], where, "assigned from outside the class to")
+                        else:
+                            owner.funcs[attr] = got[0]
+                            owner.consts.pop(attr, None)
+                            self.followed.append(f"{where}: {oname}.{attr} is assigned `{got[0].qualname}`; the analysis follows it")
+                        continue
+                    is_code = (attr in owner.methods or attr in owner.setters) if isinstance(owner, ClassInfo) else (attr in owner.funcs or attr in owner.classes)
+                    if not is_code and not isinstance(val, (ast.Lambda, ast.Call)):
+                        owner.consts[attr] = val
+                        self.followed.append(f"{where}: {oname}.{attr} = {ast.unparse(val)[:40]} assigned at import time; the analysis uses this value")
+                        continue
+                self._world("W2", "refuse" if id(n) in top else "violation", where, opath, f"{oname}.{attr or '*'}",
+                            (f"`{ast.unparse(n)[:80]}` replaces an attribute of {oname} with something the analysis cannot follow" if id(n) in top else
+                             f"`{ast.unparse(n)[:80]}` changes an attribute of the class / module object {oname} at run time: "
+                             f"every instance, every market and every strategy in the process sees the change from then on"))
 
     # ------------------------------------------------------------------ index
     def _index_module(self, m: Module):
